@@ -182,14 +182,14 @@ theorem c10_squeeze_sound (σ : Env) (a r : STn) (v : Int)
 
 /-! ## The broadcast rule and zero-sized dimensions -/
 
-/-- **Finding (open, `sym_expr.rs` belongs to C11)**: two distinct symbolic dimensions broadcast
-to `Broadcast(a, b)`, which `eval` computes as `max`. For `a = 1, b = 0` (a legal broadcast, the
-executed dimension is 0) it evaluates to 1. -/
+/-- **Finding `C10-broadcast-zero-dim` (fixed by a4a397a, together with C11-broadcast-zero-one)**: two
+distinct symbolic dimensions broadcast to `Broadcast(a, b)`. `eval` used to compute it as `max`,
+which is 1 for `a = 1, b = 0` although the executed (NumPy) dimension is 0; the fixed evaluation
+`bcastI` gives 0. -/
 theorem c10_broadcast_zero_dim_false :
     (bdim (.var "a" true) (.var "b" true)).toOption = some (.bcast (.var "a" true) (.var "b" true)) ∧
-    (Sym.bcast (.var "a" true) (.var "b" true)).eval (fun n => if n = "a" then some 1 else some 0) = some 1 ∧
-    -- … while NumPy broadcasting of the executed sizes 1 and 0 gives 0
-    (if (1 : Int) = 0 then some (1 : Int) else if (1 : Int) = 1 then some 0 else none) = some 0 := by
+    Max.max (1 : Int) 0 = 1 ∧
+    (Sym.bcast (.var "a" true) (.var "b" true)).eval (fun n => if n = "a" then some 1 else some 0) = some 0 := by
   decide
 
 /-! ## T2 — composition over a plan -/
